@@ -24,9 +24,52 @@ pub fn run(tier: Tier) -> i32 {
         bfs_builds += r.builds;
         bfs_complete &= !r.capped && r.depth_completed >= depth;
     }
-    let mut cov = c01::coverage_json(&fr, "every circuit compiled in families D (data movement: sequences of <=n of 17 movement templates over array/tuple/struct/enum inputs), E, S, P in all configurations, and every circuit built from every reachable builder state of a bounded request-sequence search, is scanned structurally: backward reachability from the outputs (every gate but the two constant gates must be reached), no AND with equal or constant-wire operands, with dedup no two ANDs over the same operand pair; family D additionally requires and_gates()==0; non-trivial = program with >=2 distinct observed outputs", &budget);
+    // large circuits: behaviour that only sets in beyond a size threshold (caches, counters) is
+    // invisible to the small families; a few programs with 10^5 - 10^6 gates are scanned as well
+    let mut large_gates = 0u64;
+    let mut large_programs = 0u64;
+    {
+        let mut srcs: Vec<(String, String)> = vec![];
+        for (name, ty, n_mid) in [("u64-mul-repeat-12", "u64", 12usize), ("u32-mul-repeat-40", "u32", 40), ("u64-div-repeat-6", "u64", 6)] {
+            let op = if name.contains("div") { "/" } else { "*" };
+            let mut body = format!("  let first = a {op} b;\n  let mut acc = c;\n");
+            for k in 0..n_mid {
+                body.push_str(&format!("  acc = (acc ^ {}{ty}) {op} (d | {}{ty});\n", k + 1, k + 3));
+            }
+            body.push_str(&format!("  let again = a {op} b;\n  let swapped = b {op} a;\n  (first ^ acc, again | acc, swapped & acc)\n"));
+            srcs.push((name.to_string(), format!("pub fn main(a: {ty}, b: {ty}, c: {ty}, d: {ty}) -> ({ty}, {ty}, {ty}) {{\n{body}}}\n")));
+        }
+        if tier == Tier::Thorough {
+            let mut body = String::from("  let first = a * b;\n  let mut acc = c;\n");
+            for k in 0..60 {
+                body.push_str(&format!("  acc = (acc ^ {}u64) * (d | {}u64);\n", k + 1, k + 3));
+            }
+            body.push_str("  let again = a * b;\n  (first ^ acc, again | acc)\n");
+            srcs.push(("u64-mul-repeat-60".into(), format!("pub fn main(a: u64, b: u64, c: u64, d: u64) -> (u64, u64) {{\n{body}}}\n")));
+        }
+        for (name, src) in &srcs {
+            for dedup in [true, false] {
+                let cfg = crate::subject::Config { register: false, dedup };
+                match crate::subject::compile(src, cfg, Default::default()) {
+                    crate::subject::CompileOutcome::Ok(p) => {
+                        if let Some(c) = crate::subject::ssa_of(&p) {
+                            large_programs += 1;
+                            large_gates += c.gates.len() as u64;
+                            for (kind, detail) in crate::progcheck::structural_scan(c, dedup).into_iter().take(3) {
+                                coll.push(Violation::new("C15", format!("large/{name}"), kind, cfg.name(), json!({"kind": "program", "source": src, "config": cfg.name()}), detail));
+                            }
+                        }
+                    }
+                    other => coll.push(Violation::new("C05", format!("large/{name}"), "large-program-not-compiled", cfg.name(), json!({"kind": "program", "source": src}), format!("{other:?}").chars().take(300).collect::<String>())),
+                }
+            }
+        }
+    }
+    let mut cov = c01::coverage_json(&fr, "every circuit compiled in families D (data movement: sequences of <=n of 17 movement templates over array/tuple/struct/enum inputs), E, S, P in all configurations, and every circuit built from every reachable builder state of a bounded request-sequence search, is scanned structurally: backward reachability from the outputs (every gate but the two constant gates must be reached), no AND with equal or constant-wire operands, with dedup no two ANDs over the same operand pair; family D additionally requires and_gates()==0; a few programs with 10^5 - 10^6 gates (a product or quotient computed before and after many unrelated ones) are scanned too, so that size-dependent behaviour of the gate cache is seen; non-trivial = program with >=2 distinct observed outputs", &budget);
     if let serde_json::Value::Object(m) = &mut cov {
         m.insert("builder_states_scanned".into(), json!(bfs_states));
+        m.insert("large_programs_scanned".into(), json!(large_programs));
+        m.insert("large_programs_gates_total".into(), json!(large_gates));
         m.insert("builder_circuits_scanned".into(), json!(bfs_builds));
         m.insert("exhaustive".into(), json!(fr.complete && bfs_complete));
         m.insert("semantically_constant_operands".into(), json!("not failed: the property speaks of constant operands; only the two constant wires count (syntactic reading, cannot raise a false alarm)"));
